@@ -158,6 +158,7 @@ def unpack_attributes(attributes, namespace, default, restricted_namespace):
                     ns = default
         else:
             ns = default
+        attribute['namespace'] = ns
         namespaced[ns, name] = value
 
     return namespaced
